@@ -201,7 +201,7 @@ impl AsyncRichIndexer {
             for (input_index, input) in tx_view.inputs().into_iter().enumerate() {
                 let out_point = input.previous_output();
                 if !spend_cell(&out_point, tx).await? {
-                    break;
+                    continue;
                 }
                 if self.custom_filters.is_cell_filter_enabled() {
                     if let Some((output_id, output, output_data)) =
